@@ -18,9 +18,12 @@
      (3) completely for well-formed graphs (C16's WF: what OpGraph.is_consistent plus "no dangling nodes" means):
          C20_simplify_bond_le, C20_merge_edges_bond_le - no layer grows, no layer is added (the layers of a well-formed graph are
          the level sets of its level function; a merge keeps node ids, start terminal and level functions).
-     (1) NOT proved: "generic" is a measure-theoretic qualifier and rank is numerical — prop only (harness/props/c20.py compares
-         MPO.bond_dims with numerical operator Schmidt ranks).  Kernel-computed instead, BOUNDED in L (L <= 8) and at sample
-         parameter values: the closed-form bond dimensions of every built-in model graph (C20_dims_*_bounded).
+     (1) the Schmidt-rank half is NOT proved: "generic" is a measure-theoretic qualifier and rank is numerical -- prop only
+         (harness/props/c20.py compares MPO.bond_dims with numerical operator Schmidt ranks).  PROVED instead, FOR EVERY L >= 1
+         (second half of this file, C20_*_all_L): the closed-form bond dimensions of the model graphs of Ising (automaton route),
+         XXZ spin-1/2 and spin-1, Bose-Hubbard and Fermi-Hubbard (from_opchains route) for all non-zero parameters, and for every
+         chain list: bond dimension at cut k + 1 = size of the cover chosen at site k.  Still BOUNDED in L (L <= 8, sample
+         parameter values, kernel computation): the hand-wired linear fermionic graph (C20_dims_linferm_bounded).
          The optimized molecular constructions have no Coq model here (prop only). *)
 From Coq Require Import ZArith QArith Qcanon List Bool Lia.
 From PT Require Import Base.Scalar Base.BigSum Base.Mx Model.OpGraph Model.Bipartite Model.FromOpchains Model.GraphMPO
@@ -174,3 +177,160 @@ Example C20_nonvacuous_simplify :
      @mkedge GIring 5 4 2 [(0, (0, 1)); (1, (2, 0))]] 0 2 in
   check_simplify g [1; 3; 1]%nat [1; 2; 1]%nat = true /\ WF GIring g.
 Proof. split; [vm_compute; reflexivity|apply wfb_WF; vm_compute; reflexivity]. Qed.
+
+(* ================================================================================================================
+   FOR EVERY LATTICE SIZE L (added; replaces "closed forms for L <= 8 by kernel computation" for Ising, the two XXZ models,
+   Bose-Hubbard and Fermi-Hubbard; the hand-wired linear fermionic graph stays bounded, C20_dims_linferm_bounded).
+   Proofs: Proofs/CompactAllL*.v.  What is proved about the MODEL graphs (Model/FromOpchains.v with the model of
+   minimum_vertex_cover, Model/AutOp.v from_automaton):
+   (a) every chain list, every certified cover oracle: the bond dimension at cut k + 1 IS the size of the vertex cover chosen
+       at site k (C20_opchains_bond_dims_are_cover_sizes) = the maximum matching size of that site's bipartite graph (C18);
+   (b) from_automaton: layer widths = numbers of active automaton states; Ising: [1,3,...,3,1] for every L >= 1 and ALL J, h, g
+       (the automaton edges are active whatever their coefficients are, so also for J = 0, where the operator Schmidt rank is 2:
+       the Ising MPO of the library is NOT compact at J = 0 -- the property only speaks of generic non-zero parameters);
+   (c) XXZ spin-1/2 and spin-1 tables with non-zero J/2, D, h: dims_xxz L = [1,4,5,...,5,4,1] ([1,1], [1,4,1], [1,4,4,1] for
+       L = 1, 2, 3) for every L >= 1, for ANY certified cover oracle (the minimum covers are not unique: the statement covers
+       every choice), in particular for the model of minimum_vertex_cover.
+   (d) nearest-neighbour tables without coincidences between one-site operators and charge-0 two-site terms ([table_okb],
+       Proofs/CompactAllLNNTop.v), all coefficients non-zero: [1,w,...,w,1] with w = (number of two-site terms) + 2 for every
+       L >= 1 and ANY certified cover oracle; instances Bose-Hubbard (w = 4, any local dimension) and Fermi-Hubbard (w = 6).
+   How (c) and (d) are proved: an invariant of the half-chains in flight (one node carries exactly the not yet started terms,
+   every other half-chain is a started or finished term); for a state satisfying it the site graph is explicit, a matching
+   and an edge classification (= a cover) of the same size give the matching number, and a certified cover of that size must
+   contain the identity vertex and none of the not yet started tails, which re-establishes the invariant whatever else the
+   cover routine chooses.
+   NOT proved at all (would need linear independence of operator families over the coefficient field, i.e. a rank argument
+   about the dense matrices: for a cut k the d_k operators  left-part x right-part  selected by a maximum matching of the site
+   graph would have to be shown linearly independent for generic parameters): that these numbers equal the operator Schmidt
+   rank.  This stays numerical (prop in harness/props/c20.py). *)
+From PT Require Import Model.AutOp Model.HamIsing Model.CompactAllL
+                       Proofs.CompactAllLWidths Proofs.CompactAllLAut Proofs.CompactAllLIsing Proofs.CompactAllLXXZSite Proofs.CompactAllLXXZTop
+                       Proofs.CompactAllLNNBody Proofs.CompactAllLNNSite Proofs.CompactAllLNNTop.
+
+(* (a) bond dimensions = cover sizes.  [cover_sizes cover L s0] (Model/CompactAllL.v) lists |u_cover| + |v_cover| of the L
+   covers chosen during the sweep started in the initial state s0 of from_opchains. *)
+Theorem C20_opchains_bond_dims_are_cover_sizes : forall (R : cring) cover (chains : list (chain R)) L idn g, (1 <= L)%nat ->
+  (forall s0, start_state chains L idn = Some s0 -> calls_certified cover L s0) ->
+  from_opchains cover chains L idn = Ok g ->
+  exists s0, start_state chains L idn = Some s0 /\ bond_dims g = Some (1%nat :: cover_sizes cover L s0).
+Proof. exact opchains_bond_dims_sizes. Qed.
+Print Assumptions C20_opchains_bond_dims_are_cover_sizes.
+
+Theorem C20_opchains_bond_dims_are_cover_sizes_model : forall (R : cring) (chains : list (chain R)) L idn g, (1 <= L)%nat ->
+  from_opchains cover_model chains L idn = Ok g ->
+  exists s0, start_state chains L idn = Some s0 /\ bond_dims g = Some (1%nat :: cover_sizes cover_model L s0).
+Proof. exact opchains_bond_dims_sizes_model. Qed.
+Print Assumptions C20_opchains_bond_dims_are_cover_sizes_model.
+
+(* (b) automata: the layers MPO.from_opgraph finds in the unrolled graph have as many nodes as there are active states
+   (forward reachable from the start terminal and backward reachable from the end terminal, C17) *)
+Theorem C20_from_automaton_bond_dims : forall (R : cring) (aut : autop R) (L : nat) (g : graph R) all,
+  aut_consistent aut = true -> from_automaton_raw aut L = C17Common.Ok g -> active_layers aut L = C17Common.Ok all ->
+  bond_dims g = Some (map (@length Z) all).
+Proof. exact from_automaton_bond_dims. Qed.
+Print Assumptions C20_from_automaton_bond_dims.
+
+(* Ising, every L >= 1, every J h g in every coefficient ring: the graph exists and has bond dimensions [1,3,...,3,1] *)
+Theorem C20_ising_bond_dims_all_L : forall (R : cring) (J h g : R) (L : nat), (1 <= L)%nat ->
+  exists gr, ising_graph J h g L = Some gr /\ bond_dims gr = Some (dims_const L 3).
+Proof. exact ising_bond_dims_all. Qed.
+Print Assumptions C20_ising_bond_dims_all_L.
+
+(* (c) XXZ.  The table  c1 (S+ S- + S- S+) + c2 Sz Sz + c3 Sz  with charge step c between the two flip operators, translated
+   over L sites; c1, c2, c3 non-zero (decided by the ring's equality test, as the code's  coeff != 0  filter does).
+   Every certified cover oracle, every graph it makes the construction return. *)
+Theorem C20_xxz_table_bond_dims_all_L : forall (R : cring) (c : Z) cover (c1 c2 c3 : R) L g,
+  keqb R c1 (k0 R) = false -> keqb R c2 (k0 R) = false -> keqb R c3 (k0 R) = false -> (1 <= L)%nat ->
+  (forall s0, start_state (local_opchains_to_chains (xlop R c c1 c2 c3) L) L 0 = Some s0 -> calls_certified cover L s0) ->
+  from_opchains cover (local_opchains_to_chains (xlop R c c1 c2 c3) L) L 0 = Ok g ->
+  bond_dims g = Some (dims_xxz L).
+Proof. exact xlop_bond_dims. Qed.
+Print Assumptions C20_xxz_table_bond_dims_all_L.
+
+(* the per-site statement behind it: the cover sizes along the sweep, from any state satisfying the invariant
+   (one node carries exactly the not yet started terms, every other half-chain is a started or finished term) *)
+Theorem C20_xxz_cover_sizes : forall (R : cring) (c : Z) cover n (s s' : st R) started,
+  Psi c n started (map fst (s_next s)) -> calls_certified cover n s -> sweep cover n s = Ok s' ->
+  cover_sizes cover n s = xxz_sizes n started.
+Proof. exact xxz_sweep. Qed.
+Print Assumptions C20_xxz_cover_sizes.
+
+(* heisenberg_xxz_mpo, every L >= 1: the model graph (model cover routine) exists and has the closed-form bond dimensions *)
+Theorem C20_xxz_bond_dims_all_L : forall (R : cring) (half J D h : R) (L : nat),
+  keqb R (kmul R half J) (k0 R) = false -> keqb R D (k0 R) = false -> keqb R (kopp R h) (k0 R) = false -> (1 <= L)%nat ->
+  exists g, spec_graph cover_model (xxz_spec half J D h) L = Ok g /\ bond_dims g = Some (dims_xxz L).
+Proof. exact xxz_bond_dims_all. Qed.
+Print Assumptions C20_xxz_bond_dims_all_L.
+
+(* heisenberg_xxz_spin1_mpo *)
+Theorem C20_xxz1_bond_dims_all_L : forall (R : cring) (half sq2 J D h : R) (L : nat),
+  keqb R (kmul R half J) (k0 R) = false -> keqb R D (k0 R) = false -> keqb R (kopp R h) (k0 R) = false -> (1 <= L)%nat ->
+  exists g, spec_graph cover_model (xxz1_spec half sq2 J D h) L = Ok g /\ bond_dims g = Some (dims_xxz L).
+Proof. exact xxz1_bond_dims_all. Qed.
+Print Assumptions C20_xxz1_bond_dims_all_L.
+
+(* (d) tables without coincidences.  [glop R Tc Sc] = the local chain list made of the two-site terms Tc (o1, o2, charge;
+   coefficient) followed by the one-site terms Sc; [table_okb] (Proofs/CompactAllLNNTop.v) = the side conditions: operator ids
+   differ from the identity id 0, the pairs (o1, charge) and the pairs (o2, charge) are pairwise different, no one-site
+   operator equals the first or second operator of a charge-0 two-site term, the first two one-site operators differ. *)
+Theorem C20_nn_table_bond_dims_all_L : forall (R : cring) (Tc : list (term * R)) (Sc : list (Z * R)),
+  table_okb (map fst Tc) (map fst Sc) = true ->
+  forallb (fun x => negb (keqb R (snd x) (k0 R))) Tc = true -> forallb (fun x => negb (keqb R (snd x) (k0 R))) Sc = true ->
+  forall cover L g, (1 <= L)%nat ->
+  (forall s0, start_state (local_opchains_to_chains (glop R Tc Sc) L) L 0 = Some s0 -> calls_certified cover L s0) ->
+  from_opchains cover (local_opchains_to_chains (glop R Tc Sc) L) L 0 = Ok g ->
+  bond_dims g = Some (dims_const L (length Tc + 2)).
+Proof. exact glop_bond_dims. Qed.
+Print Assumptions C20_nn_table_bond_dims_all_L.
+
+(* bose_hubbard_mpo, every local dimension d and every L >= 1 *)
+Theorem C20_bose_bond_dims_all_L : forall (R : cring) d sq (t U mu : R) (L : nat),
+  keqb R (kopp R t) (k0 R) = false -> keqb R U (k0 R) = false -> keqb R (kopp R mu) (k0 R) = false -> (1 <= L)%nat ->
+  exists g, spec_graph cover_model (bose_spec d sq t U mu) L = Ok g /\ bond_dims g = Some (dims_const L 4).
+Proof. exact bose_bond_dims_all. Qed.
+Print Assumptions C20_bose_bond_dims_all_L.
+
+(* fermi_hubbard_mpo, every L >= 1 *)
+Theorem C20_fermi_bond_dims_all_L : forall (R : cring) (half t U mu : R) (L : nat),
+  keqb R (kopp R t) (k0 R) = false -> keqb R U (k0 R) = false -> keqb R (kopp R mu) (k0 R) = false -> (1 <= L)%nat ->
+  exists g, spec_graph cover_model (fermi_spec half t U mu) L = Ok g /\ bond_dims g = Some (dims_const L 6).
+Proof. exact fermi_bond_dims_all. Qed.
+Print Assumptions C20_fermi_bond_dims_all_L.
+
+(* ---- consistency / non-vacuity: the hypotheses hold at the sample parameters of the bounded computations above, and the
+        closed forms agree with the kernel-computed bond dimensions of the model graphs for L = 2 .. 8 ---- *)
+Definition Ls28 : list nat := [2; 3; 4; 5; 6; 7; 8]%nat.
+Example C20_allL_hypotheses_nonvacuous :
+  keqb Qcring (kmul Qcring qhalf (qn 3)) (k0 Qcring) = false /\ keqb Qcring (qn 5) (k0 Qcring) = false /\
+  keqb Qcring (kopp Qcring (qn 7)) (k0 Qcring) = false.
+Proof. vm_compute. repeat split; reflexivity. Qed.
+Example C20_allL_xxz_consistent :
+  forallb (fun L => dims_ok (@xxz_spec Qcring qhalf (qn 3) (qn 5) (qn 7)) L (dims_xxz L) &&
+                    dims_ok (@xxz1_spec Qcring qhalf (qn 1) (qn 3) (qn 5) (qn 7)) L (dims_xxz L) &&
+                    nat_list_eqb (1%nat :: xxz_sizes L false) (dims_xxz L)) Ls28 = true.
+Proof. vm_compute. reflexivity. Qed.
+(* the cover sizes computed by running the model sweep = the closed form *)
+Example C20_allL_cover_sizes_consistent :
+  forallb (fun L => match start_state (spec_chains (@xxz_spec Qcring qhalf (qn 3) (qn 5) (qn 7)) L) L 0 with
+                    | Some s0 => nat_list_eqb (cover_sizes cover_model L s0) (xxz_sizes L false)
+                    | None => false end) Ls28 = true.
+Proof. vm_compute. reflexivity. Qed.
+Example C20_allL_ising_consistent :
+  forallb (fun L => match ising_graph (R := GIring) (2, 0) (-1, 0) (3, 1) L with
+                    | Some g => check_graph_dims g (dims_const L 3) | None => false end) Ls28 = true /\
+  (* also at J = 0 (not a generic point: the operator Schmidt rank is 2 there) *)
+  match ising_graph (R := GIring) (0, 0) (-1, 0) (3, 0) 5 with
+  | Some g => check_graph_dims g [1; 3; 3; 3; 3; 1]%nat | None => false end = true.
+Proof. split; vm_compute; reflexivity. Qed.
+(* the two tables meet the side conditions; the XXZ table does not (Sz Sz has charge 0 and Sz is a one-site term) *)
+Example C20_allL_tables :
+  table_okb (map fst (bose_Tc Qcring (qn 1))) (map fst (bose_Sc Qcring (qn 3) (qn 5))) = true /\
+  table_okb (map fst (fermi_Tc Qcring (qn 1))) (map fst (fermi_Sc Qcring (qn 3) (qn 5))) = true /\
+  table_okb [(1, -1, 2); (-1, 1, -2); (2, 2, 0)] [2; 3] = false.
+Proof. vm_compute. repeat split; reflexivity. Qed.
+Example C20_allL_nn_consistent :
+  keqb Qcring (kopp Qcring (qn 3)) (k0 Qcring) = false /\
+  forallb (fun L => dims_ok (@bose_spec Qcring 3 (fun _ => qn 1) (qn 3) (qn 5) (qn 7)) L (dims_const L 4) &&
+                    dims_ok (@fermi_spec Qcring qhalf (qn 3) (qn 5) (qn 7)) L (dims_const L 6) &&
+                    nat_list_eqb (1%nat :: nn_sizes (map fst (fermi_Tc Qcring (qn 3))) L) (dims_const L 6)) Ls28 = true.
+Proof. split; vm_compute; reflexivity. Qed.
